@@ -452,16 +452,18 @@ func sharedNodeClasses(w *universe.World, path string, ro options.RemediationOpt
 
 func genC16Patch(t *rapid.T) c16PatchCase {
 	c := genC16PatchScenario(t)
-	if rapid.IntRange(0, 3).Draw(t, "fail_versions") == 0 {
-		// a direct dependency (what relax looks up) or any package an advisory names (what
-		// override looks up)
+	if rapid.IntRange(0, 2).Draw(t, "fail_versions") == 0 {
+		// a direct dependency (what relax looks up) or, for Maven, any package an advisory names
+		// (what override looks up)
 		var names []string
 		for _, d := range c.Scenario.Manifest.Deps {
 			names = append(names, d.Name)
 		}
-		for _, v := range c.Scenario.Vulns {
-			for _, a := range v.Affected {
-				names = append(names, a.Package.Name)
+		if c.Scenario.Universe.System != universe.NPM {
+			for _, v := range c.Scenario.Vulns {
+				for _, a := range v.Affected {
+					names = append(names, a.Package.Name)
+				}
 			}
 		}
 		if len(names) > 0 {
@@ -784,6 +786,40 @@ func propC16Patch(c c16PatchCase) (ev.Outcome, error) {
 		}
 	}
 	refKey := patchesKey(ref)
+	// the strategy's own ComputePatches (no gate: its attempts run as the scheduler lets them)
+	// must give the serial list; it is waited for as long as its resolve client sees calls
+	type plainRes struct {
+		p   []result.Patch
+		err error
+	}
+	plainCh := make(chan plainRes, 1)
+	go func() {
+		p, _, err := verifhooks.AllPatches(context.Background(), w.Scenario.Strategy(), cl, w.Matcher, w.System,
+			scalibrfs.DirFS(filepath.Dir(path)), filepath.Base(path), ptr(mkOpts()), nil)
+		plainCh <- plainRes{p, err}
+	}()
+	var plain plainRes
+	start, lastCalls, lastChange := time.Now(), w.Client.Calls(), time.Now()
+wait:
+	for {
+		select {
+		case plain = <-plainCh:
+			break wait
+		case <-time.After(time.Second):
+			if n := w.Client.Calls(); n != lastCalls {
+				lastCalls, lastChange = n, time.Now()
+			}
+			if time.Since(start) >= ev.HangLimit && time.Since(lastChange) >= 2*time.Minute {
+				return o, fmt.Errorf("the strategy's own patch computation does not return and has made no resolve-client call for minutes (%d calls in all), while the serial computation of the same attempts returned %d patches", lastCalls, len(ref))
+			}
+		}
+	}
+	if plain.err != nil {
+		return o, fmt.Errorf("the strategy's own patch computation fails (%v) where the serial computation of the same attempts returns %d patches", plain.err, len(ref))
+	}
+	if k := patchesKey(plain.p); k != refKey {
+		return o, fmt.Errorf("the strategy's own concurrent patch computation gives %d patches, the serial computation of the same attempts %d\n got  %s\n want %s", len(plain.p), len(ref), k, refKey)
+	}
 	var scheds []c16Schedule
 	if c.Only != nil {
 		scheds = []c16Schedule{*c.Only}
@@ -857,5 +893,5 @@ func propC16Patch(c c16PatchCase) (ev.Outcome, error) {
 func ptr[T any](v T) *T { return &v }
 
 func TestC16_patch(t *testing.T) {
-	ev.Check(t, ev.Get("C16"), ev.Scale(150, 600), genC16Patch, propC16Patch)
+	ev.Check(t, ev.Get("C16"), ev.Scale(200, 600), genC16Patch, propC16Patch)
 }
